@@ -5,7 +5,10 @@ use errno::{errno, Errno};
 use std::ffi::{c_void, CStr};
 use std::mem::size_of;
 use std::ptr;
+#[cfg(not(clockbound_verif))]
 use std::sync::atomic;
+#[cfg(clockbound_verif)]
+use crate::verif::atomic;
 
 use crate::shm_header::ShmHeader;
 use crate::{syserror, ClockErrorBound, ShmError};
@@ -268,6 +271,8 @@ impl ShmReader {
             // Read the ClockErrorBound data from the shared memory
             // SAFETY: `ceb_at` has been checked to be valid while creating the ShmReader
             let snapshot = unsafe { self.ceb_shm.read_volatile() };
+            #[cfg(clockbound_verif)]
+            let snapshot = crate::verif::data_read(self.ceb_shm, snapshot);
 
             // Confirm no update occurred during the read
             let second_gen = generation.load(atomic::Ordering::Acquire);
